@@ -40,6 +40,7 @@ type c18Scn struct {
 	Buf       int         `json:"buf"`
 	SlowEst   bool        `json:"slow_est,omitempty"`   // the Established callback takes a few milliseconds
 	Push      bool        `json:"push,omitempty"`       // an application goroutine keeps sending to every established client through its ServerChannel
+	Restart   bool        `json:"restart,omitempty"`    // startstop: the same Server is served a second time after its Close (socket listeners start again)
 	Odd       bool        `json:"odd,omitempty"`        // besides the clients: on every listener a peer whose only envelope is a session that cannot start one, gone at once
 	NoBacklog bool        `json:"no_backlog,omitempty"` // the queue between acceptors and consumer has no buffer (Backlog 0): a pure hand-off
 }
@@ -295,6 +296,33 @@ func c18StartStop(scn *c18Scn) c18Obs {
 		if o.Result != 0 {
 			o.Note = fmt.Sprintf("iteration %d", it)
 			return o
+		}
+		if scn.Restart {
+			// a second serving period of the same Server, with a session in it
+			s.start()
+			ctx, cancel := context.WithTimeout(context.Background(), 5*time.Second)
+			var cc *lime.ClientChannel
+			if t, err := s.dial(ctx, s.kinds[0]); err == nil {
+				cc = lime.NewClientChannel(t, 4)
+				_, _ = cc.EstablishSession(ctx, lime.NoneCompressionSelector, lime.NoneEncryptionSelector,
+					lime.Identity{Name: "u0", Domain: "verif.test"}, lime.GuestAuthenticator, "i0")
+				go func(cc *lime.ClientChannel) {
+					for range cc.MsgChan() {
+					}
+				}(cc)
+			} else {
+				o.Note = fmt.Sprintf("iteration %d: second period: dial: %v", it, err)
+			}
+			cancel()
+			s.closeServing()
+			s.result(&o, 10*time.Second)
+			if cc != nil {
+				_ = cc.Close()
+			}
+			if o.Result != 0 {
+				o.Note = fmt.Sprintf("iteration %d (second serving period)", it)
+				return o
+			}
 		}
 		if l := s.listenersLeft(); l > 0 {
 			o.ListenersLeft = l
@@ -800,7 +828,7 @@ func maxInt(a, b int) int {
 func runC18(env *Env) error {
 	env.Header = "From Coq Require Import List Bool Arith.\nImport ListNotations.\nFrom Lime Require Import Base.Res Life.Handler Life.Server Corr.C18.\n"
 	env.ShardSize = 100
-	env.Rule = "real Server, each scenario in its own process: (startstop) ListenAndServe and Close racing at start-up, 1-3 listeners of every kind, repeated; (gated) Close while the consumer is held before its select / while an acceptor holds an accepted transport (build-tag gates); (sessions) 1-8 clients over in-process, TCP and WebSocket in the phases idle, after traffic, sending while Close runs, stalled mid-handshake, failed authentication, finished earlier, vanished earlier, connecting while Close runs, optionally next to peers whose only envelope cannot start a session and who vanish at once; the queue between acceptors and consumer with 4 slots or none (Backlog 0). Non-trivial: a gated scenario, a start-up race with two or more listeners, or at least two clients. Distinct by printed scenario."
+	env.Rule = "real Server, each scenario in its own process: (startstop) ListenAndServe and Close racing at start-up, 1-3 listeners of every kind, repeated, also with a second serving period of the same Server; (gated) Close while the consumer is held before its select / while an acceptor holds an accepted transport (build-tag gates); (sessions) 1-8 clients over in-process, TCP and WebSocket in the phases idle, after traffic, sending while Close runs, stalled mid-handshake, failed authentication, finished earlier, vanished earlier, connecting while Close runs, optionally next to peers whose only envelope cannot start a session and who vanish at once; the queue between acceptors and consumer with 4 slots or none (Backlog 0). Non-trivial: a gated scenario, a start-up race with two or more listeners, or at least two clients. Distinct by printed scenario."
 	var rc c18Case
 	if ok, err := env.ReplayDesc(&rc); err != nil {
 		return err
@@ -815,6 +843,9 @@ func runC18(env *Env) error {
 	for _, ls := range lsets {
 		scns = append(scns, c18Scn{Kind: "startstop", Listeners: ls, Iter: iter, Buf: 4})
 		scns = append(scns, c18Scn{Kind: "startstop", Listeners: ls, Iter: iter / 2, DelayUs: 40, Buf: 4})
+	}
+	for _, ls := range [][]string{{"tcp"}, {"ws"}, {"tcp", "ws"}} {
+		scns = append(scns, c18Scn{Kind: "startstop", Listeners: ls, Iter: env.Pick(8, 60), Buf: 4, Restart: true})
 	}
 	for _, k := range []string{"inproc", "tcp", "ws"} {
 		scns = append(scns, c18Scn{Kind: "gated", Gate: "close-before-consume", Listeners: []string{k}, Iter: env.Pick(6, 30), Buf: 4})
